@@ -252,6 +252,35 @@ def run(case):
         if nq >= npc:
             refd = np.stack([V[:, a, ci] for ci in range(nc) for a in range(npc)])
             c.close("discontinuous", "topoints(average=False): values per cell corner", gd, refd, scale=1.0)
+        # tensor-valued quantities of every order (scalar, non-square and NON-SYMMETRIC second order, third order): each of the
+        # three modes returns, per point (or per cell corner), the tensor itself -- component (i, j, ...) of the output belongs to
+        # component (i, j, ...) of the values
+        if nq >= npc or nq == 1:
+            for T in ((), (2, 3), (3, 3), (2, 2, 3)):
+                VT = zoo.offarr(seed, 2010 + len(T) + sum(T), T + (nq, nc))
+                flat = VT.reshape((-1, nq, nc))
+                k_ = flat.shape[0]
+                ra, rm = np.zeros((n, k_)), np.zeros((n, k_))
+                cmT = (flat * w[:, None]).sum(-2) / w.sum()
+                for ci, cell in enumerate(cells):
+                    for a in range(npc):
+                        ra[cell[a]] += flat[:, 0 if nq == 1 else a, ci]
+                    rm[cell] += cmT[:, ci]
+                rd = np.stack([flat[:, 0 if nq == 1 else a, ci] for ci in range(nc) for a in range(npc)])
+                for mlab, kw_, ref_ in (("average", dict(), ra / cpp[:, None]), ("mean", dict(mean=True), rm / cpp[:, None]), ("discontinuous", dict(average=False), rd), ("discontinuous-mean", dict(average=False, mean=True), np.stack([cmT[:, ci] for ci in range(nc) for a in range(npc)]))):
+                    if mlab == "discontinuous" and nq == 1 and npc > 1:
+                        continue
+                    try:
+                        g_ = np.asarray(fem.topoints(VT, region, **kw_))
+                    except Exception as ex:  # noqa
+                        c.bad(f"tensor{T}/{mlab}/exception", "topoints raised for tensor-valued input", repr(ex)[:160], "values")
+                        continue
+                    c.trans += 1
+                    want = ref_.reshape((ref_.shape[0],) + T)
+                    if g_.shape != want.shape:
+                        c.bad(f"tensor{T}/{mlab}/shape", "shape of topoints output for tensor-valued input", list(g_.shape), list(want.shape))
+                        continue
+                    c.close(f"tensor{T}/{mlab}", f"topoints({kw_}) of values with tensor shape {T}: component-wise", g_, want, scale=1.0)
         # results of earlier calls stay valid: every ordered pair of calls (same region, same tensor size) over
         # {average, mean, discontinuous}; the first result is looked at again after the second call (increments between two
         # states are formed this way)
